@@ -34,7 +34,8 @@ LEVEL_TEXT = ("The two owned sources of nondeterminism are turned into explicit 
               "class x every permutation of the state's transitions. Every explored execution must give identical measurements / reports; "
               "every traversal order and every history runs in a forked child so that process-wide memos cannot mask a difference.")
 LEVEL_NOTE = ("Not all 2^32 seeds are run: every iteration order any seed could induce at the one place where set order reaches behaviour is enumerated instead; "
-              "a new order-sensitive place would only be seen by the supplementary real-seed differential (sampling, reported separately).")
+              "a new order-sensitive place would only be seen by the supplementary real-seed differential (sampling, reported separately)."
+              " Further families: walk orders of trees with NFC/NFD twins, mixed-language neighbours and symbolic links; the clock (all time-module clocks advanced 100 s per reading); real hash seeds over probes and non-canonical snippets (sampling, supplementary).")
 
 
 # ---------------------------------------------------------------------------------------
